@@ -414,9 +414,10 @@ def parse_rvalue(s, fn, dst_ty):
             k, v = part.split(': ', 1)
             fields.append((k.strip(), parse_operand(v)))
         return ('adt_struct', m.group(1).strip(), fields)
-    m = re.match(r'^([\w:<>&\'\[\], ()*;]+?)\((.*)\)$', s, re.S)
-    if m and balanced(m.group(2)) and '::' in m.group(1):
-        return ('adt_tuple', m.group(1).strip(), [parse_operand(x) for x in split_top(m.group(2))])
+    if s.endswith(')') and '::' in s:
+        sc = split_call(s)
+        if sc and re.match(r'^[\w:<>&\'\[\], ()*;]+$', sc[0]) and '::' in sc[0]:
+            return ('adt_tuple', sc[0].strip(), [parse_operand(x) for x in split_top(sc[1])])
     if re.match(r'^[\w:<>&\'\[\], ()*;]+$', s) and ('::' in s or s[:1].isupper()):
         return ('adt_unit', s)
     if re.fullmatch(r'[\w:<>]+', s):
